@@ -10,6 +10,7 @@ def run(check):
     check.guarded("FANOUT", X.rule_fanout)
     check.guarded("NOTHING-DROPPED", X.rule_nothing_dropped)
     check.guarded("GROUP", X.rule_hoist_paren)
+    check.guarded("CALL-EMISSION", X.rule_call_emission)
     check.guarded("PRINT-PATH", c09.rule_print_path)
     return {
         "explanation": "Inventory of every AST node kind constructed in the build against the documented instrumentation shapes, per-function single-use (fan-out) analysis of input sub-trees copied into constructed output, completeness of operand processing, and the print path.",
